@@ -222,6 +222,101 @@ def cross_option_independence(ctx):
     ctx.count('cross-option independence (3 process orders)')
 
 
+ACC_ORDER_SCRIPT = r"""
+import sys, json
+sys.path.insert(0, %(repo)r)
+import sqlparse
+from sqlparse import sql
+TEXTS = %(texts)r
+ACCS = ['get_type', 'get_name', 'get_alias', 'get_real_name', 'get_parent_name', 'has_alias', 'get_identifiers', 'get_parameters', 'get_window', 'get_cases',
+        'get_typecast', 'get_ordering', 'is_wildcard', 'get_array_indices', 'is_multiline', 'get_sublists', 'token_first', 'is_whitespace', 'is_keyword', 'is_group',
+        '_get_first_name:kw', '_get_first_name:rev', '_get_first_name:kwrev', 'token_next:0', 'token_prev:last', 'normalized', '__str__', 'within:Parenthesis', 'has_ancestor:root']
+def canon(v):
+    if v is None or isinstance(v, (bool, str, int)): return repr(v)
+    if isinstance(v, sql.Token): return 'T<%%s>' %% v
+    if isinstance(v, tuple): return '(' + ','.join(canon(x) for x in v) + ')'
+    try: return '[' + ','.join(canon(x) for x in v) + ']'
+    except TypeError: return '?' + type(v).__name__
+calls = []
+for ti, t in enumerate(TEXTS):
+    for si, st in enumerate(sqlparse.parse(t)):
+        nodes = []
+        def walk(n, path):
+            nodes.append((path, n))
+            if n.is_group:
+                for i, c in enumerate(n.tokens): walk(c, path + (i,))
+        walk(st, ())
+        for path, n in nodes:
+            for a in ACCS:
+                calls.append(((ti, si) + path, a, n, st))
+def call(n, a, st):
+    if a == '_get_first_name:kw': return n._get_first_name(keywords=True)
+    if a == '_get_first_name:rev': return n._get_first_name(reverse=True)
+    if a == '_get_first_name:kwrev': return n._get_first_name(keywords=True, reverse=True)
+    if a == 'token_next:0': return n.token_next(0)
+    if a == 'token_prev:last': return n.token_prev(len(n.tokens))
+    if a == 'within:Parenthesis': return n.within(sql.Parenthesis)
+    if a == 'has_ancestor:root': return n.has_ancestor(st)
+    v = getattr(n, a)
+    return v() if callable(v) else v
+order = %(order)s
+idx = list(range(len(calls)))
+if order == 'rev': idx.reverse()
+elif isinstance(order, str) and order.startswith('first:'):
+    idx.sort(key=lambda i: calls[i][1] != order[6:])     # stable: every call of this accessor before any call of another one
+elif order != 'fwd':
+    import random
+    random.Random(order).shuffle(idx)
+res = {}
+for i in idx:
+    key, a, n, st = calls[i]
+    if not hasattr(n, a.split(':')[0]): continue
+    try: r = canon(call(n, a, st))
+    except Exception as e: r = 'raised ' + type(e).__name__
+    res['%%s %%s' %% ('/'.join(map(str, key)), a)] = r
+print(json.dumps(res))
+"""
+
+ACC_ORDER_TEXTS = ["select a + b as c, (select 1) as t, case when x then y end as z, 1 as one, null as n, foo as bar, t.a as col, count(*) as cnt, s.f(x) g, a::int b, x.* from u as v, w",
+                   "with c as (select 1), d (e) as (select 2) select f(a, b) over w, g(x) over (partition by y) from c join d on c.i = d.i where a in (1, 2) and b between 1 and 2 order by a desc, b asc",
+                   "create table t (a int default 1, b varchar(10)); insert into t (a, b) values (1, 'x'), (2, 'y'); update t set a = b[1], c = d[2][3] where e like 'f' limit 5",
+                   "select if(a, 1, 2), replace(a, 'x', 'y'), limit.lo, type from type where type.b = 1; replace into t values (1); if a = 1 then b; end if; select 1 limit 5",
+                   "begin for i in 1..2 loop x := 1; end loop; while a loop b; end loop; end; declare c cursor for select 1; as x; \"q\" as \"r\"; 'lit' as s; a.\"b\".c as d; @v as w; ? as p"]
+
+
+def accessor_order_independence(ctx):
+    """every read-only accessor (and navigation helper) on every node of five parsed scripts, in fresh interpreters: first-to-last, last-to-first, shuffled, and one run per accessor with its calls first.
+    A result that depends on which OTHER accessor calls were made earlier in the process (a module-level list extended in place, a memo keyed too coarsely)
+    differs between the forward and the backward run for at least one of the two calls involved; inside one process it is invisible once the state is poisoned."""
+    import subprocess, json
+    accs = ['get_type', 'get_name', 'get_alias', 'get_real_name', 'get_parent_name', 'has_alias', 'get_identifiers', 'get_parameters', 'get_window', 'get_cases', 'get_typecast',
+            'get_ordering', 'is_wildcard', 'get_array_indices', 'get_sublists', 'token_first', '_get_first_name:kw', '_get_first_name:rev', 'token_next:0', 'token_prev:last', 'normalized', '__str__']
+    # with several calls that poison shared state on either side of every victim, forward and backward runs agree (both poisoned): so, per accessor, one run in
+    # which all calls of THAT accessor come before any other call — there its results are those of a process that has made no other accessor call yet
+    outs, orders = [], ['fwd', 'rev', ctx.rng.randrange(1 << 30)] + ['first:' + a for a in accs]
+    from concurrent.futures import ThreadPoolExecutor
+    def go(order):
+        return subprocess.run([sys.executable, '-c', ACC_ORDER_SCRIPT % {'repo': REPO, 'texts': ACC_ORDER_TEXTS, 'order': repr(order)}], stdout=subprocess.PIPE, stderr=subprocess.PIPE, timeout=300)
+    with ThreadPoolExecutor(min(NCPU, 12)) as ex:
+        procs = list(ex.map(go, orders))
+    for order, p in zip(orders, procs):
+        if p.returncode != 0:
+            ctx.fail('accessor calls on parsed statements did not finish normally in a fresh interpreter', {'order': order}, observed=p.stderr.decode()[-300:], required='exit 0', acc_order_probe=[order])
+            return
+        outs.append(json.loads(p.stdout.decode()))
+        ctx.evaluations += len(outs[-1])
+    ctx.dist['accessor_order_calls'] = len(outs[0])
+    for k in range(1, len(outs)):
+        diff = [key for key in outs[0] if outs[k].get(key) != outs[0][key]]
+        if set(outs[k]) != set(outs[0]) or diff:
+            key = diff[0] if diff else sorted(set(outs[k]) ^ set(outs[0]))[0]
+            ctx.fail('the result of an accessor depends on which other accessor calls were made earlier in the process',
+                     'call %s (text %r) with the calls in order %r instead of first-to-last' % (key, ACC_ORDER_TEXTS[int(key.split('/')[0])][:80], orders[k]),
+                     observed=str(outs[k].get(key))[:200], required=str(outs[0].get(key))[:200], acc_order_probe=[orders[k], key])
+            return
+    ctx.count('accessor order independence (%d process orders)' % len(orders))
+
+
 def history_runs(ctx):
     import sqlparse
     from sqlparse import lexer, tokens as T, keywords
@@ -576,6 +671,7 @@ def contention_soak(ctx):
 
 def run(ctx):
     cross_option_independence(ctx)
+    accessor_order_independence(ctx)
     confinement(ctx)
     contention_soak(ctx)
     first_call_scenarios(ctx)
@@ -591,6 +687,9 @@ def replay(ctx, payload):
     n0 = len(ctx.failures)
     if (payload.get('extra') or {}).get('order_probe'):
         cross_option_independence(ctx)
+        return len(ctx.failures) > n0
+    if (payload.get('extra') or {}).get('acc_order_probe'):
+        accessor_order_independence(ctx)
         return len(ctx.failures) > n0
     if isinstance(inp, dict) and 'limit' in inp:
         src = FIRST_CALL_SCRIPT % {'repo': REPO, 'limit': inp['limit'], 'depth': inp['depth']}
